@@ -355,3 +355,72 @@ def check_ptr_subscript(ctx, f, node, n, base, terms, an=None):
         else:
             why.append("no lower bound is stated in this function (type range only)")
     return Verdict(node, n, iv, free, status, "; ".join(why), base)
+
+
+# --------------------------------------------------------------------------
+# cursor idiom:  p = array + e;  ... *p, p->m, p[k] ... p++
+
+def cursor_derefs(f):
+    """[(node, pointer local name, index node or None)] for dereferences of a
+    local pointer variable (which absint may be tracking as a cursor)."""
+    c = f._cache.get("cursor_derefs")
+    if c is not None:
+        return c
+    c = []
+    pos = flow.elem_pos(f)
+    reach = f.reachable_blocks()
+    for i, e in enumerate(f.exprs):
+        p = pos.get(i)
+        if p is None or p[0] not in reach:
+            continue
+        ptr, ix = None, None
+        if e["k"] == "un" and e["op"] == "*":
+            ptr = e["c"][0]
+        elif e["k"] == "mem" and e.get("arrow"):
+            ptr = e["c"][0]
+        elif e["k"] == "idx":
+            ptr, ix = e["c"][0], e["c"][1]
+        if ptr is None:
+            continue
+        j = ex.skip(f, ptr)
+        je = f.exprs[j]
+        while je["k"] == "cast" and je["ck"] in ("LValueToRValue", "NoOp"):
+            j = ex.skip(f, je["c"][0])
+            je = f.exprs[j]
+        post = None
+        if je["k"] == "un" and je["op"] in ("++", "--"):
+            # *p++ : the dereferenced value is the old (post) or new (pre) pointer
+            post = je
+            j = ex.skip(f, je["c"][0])
+            je = f.exprs[j]
+        if je["k"] == "ref" and je.get("dk") in ("local", "param") and "it" not in je and je.get("t", "").rstrip().endswith("*"):
+            c.append((i, je["name"], ix, post))
+    f._cache["cursor_derefs"] = c
+    return c
+
+
+def check_cursor(ctx, f, node, name, ix, post, an=None):
+    """Verdict for a dereference through a tracked cursor, or None when the
+    pointer is not a cursor into a sized array at that point."""
+    an = an or ctx.analysis(f)
+    st = an.state_before_expr(node)
+    if st is None:
+        return None
+    pb = st.get(("pb", name))
+    if pb is None:
+        return None
+    n = pb[0]
+    off = st.get(("iv", "@" + name), (None, None))
+    if post is not None and not post.get("post"):
+        off = absint.add(off, (1, 1) if post["op"] == "++" else (-1, -1))
+    if ix is not None:
+        off = absint.add(off, eval_nowrap(an, st, ix))
+    lim = n + 1 if (ix is not None and is_addr_only(f, node)) else n
+    if off[0] is not None and off[0] >= 0 and off[1] is not None and off[1] < lim:
+        return Verdict(node, n, off, None, "holds", "", pb[1])
+    why = []
+    if not (off[1] is not None and off[1] < lim):
+        why.append("the cursor can stand at element %s of %s[%d]" % (off[1] if off[1] is not None else "(unbounded)", pb[1], n))
+    if not (off[0] is not None and off[0] >= 0):
+        why.append("the cursor can stand before the array (offset %s)" % (off[0] if off[0] is not None else "unbounded"))
+    return Verdict(node, n, off, None, "violated", "; ".join(why), pb[1])
